@@ -127,8 +127,20 @@ func (i *Interpreter) ProcessFunctionSubroutine(sub *ast.SubroutineDeclaration, 
 		case *ast.LogStatement:
 			err = i.ProcessLogStatement(t)
 		case *ast.SyntheticStatement:
+			if !i.ctx.Scope.Is(context.ErrorScope) {
+				return value.Null, NONE, exception.Runtime(
+					&t.Token,
+					"synthetic statement is only available in ERROR scope",
+				)
+			}
 			err = i.ProcessSyntheticStatement(t)
 		case *ast.SyntheticBase64Statement:
+			if !i.ctx.Scope.Is(context.ErrorScope) {
+				return value.Null, NONE, exception.Runtime(
+					&t.Token,
+					"synthetic.base64 statement is only available in ERROR scope",
+				)
+			}
 			err = i.ProcessSyntheticBase64Statement(t)
 		// case *ast.GotoStatement:
 		// 	err = i.ProcessGotoStatement(t)
